@@ -16,11 +16,12 @@ RefName(c) == RefusesName(c)
 EitherRegion(c) == Made(c) /\ Signed(c) /\ \E i \in 1..Len(Regions(c)) : Regions(c)[i].sig = "either" /\ Regions(c)[i].reg = "preCoverField"
 EditEither(c) == Made(c) /\ Signed(c) /\ \E e \in Edits(c) : e.op = "ins" /\ e.sig = "either" /\ e.i > 1
 NameLen253(c) == Made(c) /\ Final(c).kids[1].len = 253
+BadPlaceholder(c) == BadPd(c)
 ContentLen65536(c) == Made(c) /\ (c.content = 65536 \/ c.app = 65536)
 ASSUME PrintT(<<"WITNESSES",
   [OuterNarrows3to1 |-> Wit(OuterNarrows3to1), OuterNarrows5to3 |-> Wit(OuterNarrows5to3),
    Hit253After |-> Wit(Hit253After), Hit65536Before |-> Wit(Hit65536Before), Hit65536After |-> Wit(Hit65536After),
    EmptySig |-> Wit(EmptySig), PdNotLast |-> Wit(PdNotLast), RefuseShrink |-> Wit(RefShrink), RefuseName |-> Wit(RefName),
    EitherRegion |-> Wit(EitherRegion), EditEither |-> Wit(EditEither), NameLen253 |-> Wit(NameLen253),
-   ContentLen65536 |-> Wit(ContentLen65536)]>>)
+   ContentLen65536 |-> Wit(ContentLen65536), BadPlaceholder |-> Wit(BadPlaceholder)]>>)
 =============================================================================
